@@ -137,7 +137,10 @@ theorem mocksAlloc_inv (hP : AddImportInv P) (o : Ord) (fuel : Nat) (scope : Lis
       rcases kv with ⟨k, obj⟩
       cases obj with
       | notIface ts => simp [hs] at hm
-      | iface msIn generic tps tn =>
+      | iface msIn generic tps tn ts =>
+        cases tn with
+        | false => simp [hs] at hm
+        | true =>
         simp only [hs] at hm
         cases hma : methodsAlloc o fuel r msIn with
         | error e => simp [hma] at hm
